@@ -340,6 +340,9 @@ NUMBER_POOLS = {
     "nearint": {0: 0.0, 1: 0.9999999999999999, 2: 2.000000000000001, 3: 3.0000000001, 9: 1e15},
     "ints": {0: 0.0, 1: 1.0, 2: 2.0, 3: 3.0, 9: 9007199254740992.0},
     "dyadic": {0: 0.0, 1: 0.5, 2: 1.25, 3: 1.25 + 2.0 ** -20, 9: 1024.0625},
+    # every difference is at least the default minimumIntervalLength and two are exactly it (1e-08 - 0, 2e-08 - 1e-08):
+    # intervals and gaps exactly at the threshold are not slivers and must be written
+    "thresh": {0: 0.0, 1: 1e-08, 2: 2e-08, 3: 0.5, 9: 1.0},
 }
 
 
